@@ -3,7 +3,8 @@ import NetaddrVerif.Model.AddrParse
 /-! Driver ops of property C01 and of the modelled platform text functions.
     `aton S` · `pton4 S` · `pton6 S` · `ntop6 V` (platform);
     `ip_parse be S ver flags` · `ip_print be F V dialect` · `valid4 be S flags` · `valid6 be S` ·
-    `fb_pton F S` · `fb_ntop F V`. -/
+    `fb_pton F S` · `fb_ntop F V` · `ip_repr be F V` (repr + parse of its quoted part) ·
+    `zf_rewrite S` (the ZEROFILL rewrite `'.'.join('%d' % int(p) for p in S.split('.'))`). -/
 namespace NV.Driver.C01
 open NV NV.Proto NV.AddrParse
 
@@ -58,6 +59,20 @@ def handle (op : String) (args : List String) : Option String :=
     match validStr6 be s with
     | .ok b => pure (showBool b)
     | .error e => pure (showErr e)
+  | "ip_repr", [be, f, v] => do
+    let be ← parseBe be; let f ← f.toNat?; let v ← v.toNat?
+    let r := reprAddr be ⟨f, v⟩
+    -- the repr and what parsing its quoted part gives back (version None, flags 0)
+    match unquoteRepr r with
+    | none => pure s!"{showStr r} !unquote"
+    | some q =>
+      match ipAddress be q none 0 with
+      | .ok a => pure s!"{showStr r} {a.ver} {a.val}"
+      | .error e => pure s!"{showStr r} {showErr e}"
+  | "zf_rewrite", [s] => do
+    match zerofill (← parseStr s) with
+    | some t => pure (showStr t)
+    | none => pure "!"
   | _, _ => none
 
 end NV.Driver.C01
